@@ -43,7 +43,7 @@ def _vals(rng, shape, kind):
     return gen.normals(rng, shape)
 
 
-def gen_cases(tier, seed):
+def _gen_cases(tier, seed):
     rng = gen.rng_for(seed, ID, tier)
     small = gen.all_shapes(3, (1, 2, 3))
     # --- dense <-> sparse --------------------------------------------------------------
@@ -137,6 +137,13 @@ def _nnzc(n):
     return "0" if n == 0 else ("1" if n == 1 else "2+")
 
 
+def gen_cases(tier, seed):
+    # dense-holder history: every third case reaches its dense operand by growth (subtensor assignment past the extent) instead of the constructor
+    for i, case in enumerate(_gen_cases(tier, seed)):
+        case["hist"] = "grown" if (i + int(seed)) % 3 == 1 else "ctor"
+        yield case
+
+
 def run_case(case, ctx):
     w = case["w"]
     shape = tuple(case["shape"])
@@ -155,7 +162,7 @@ def _dense_sparse(case, ctx, shape):
     nnz = int(np.count_nonzero(A))
     ctx.feat(nnzc=_nnzc(nnz), order=case["ordk"], pattern=case["pattern"])
     ctx.tag("nnz=" + _nnzc(nnz))
-    T = ttb.tensor(A.copy())
+    T = gen.mk_tensor(ttb, A, case.get("hist", "ctor")) if dt is float else ttb.tensor(A.copy())
     S = ctx.must("tensor.to_sptensor", T.to_sptensor)
     ctx.structural(S, "tensor.to_sptensor", nozero=True)
     ctx.check(same(denote(S), A), "tensor.to_sptensor", "WRONG", lambda: f"to_sptensor denotes {denote(S).tolist()} want {A.tolist()}")
@@ -225,7 +232,8 @@ def _matricize(case, ctx, shape):
     refM = reference_matricize(A, r, c)
     kw = _kw(case)
     # ---- dense -----------------------------------------------------------------------
-    T = ttb.tensor(A.copy())
+    T = gen.mk_tensor(ttb, A, case.get("hist", "ctor")) if A.dtype == float else ttb.tensor(A.copy())
+    ctx.feat(hist=case.get("hist", "ctor"))
     M = ctx.must("tensor.to_tenmat", T.to_tenmat, **kw)
     ctx.structural(M, "tensor.to_tenmat")
     ok = (list(np.asarray(M.rindices).reshape(-1)) == r and list(np.asarray(M.cindices).reshape(-1)) == c
